@@ -77,7 +77,7 @@ def gen_case(rng, rich=True):
         names_in = rng.sample(EVIN, rng.choice([0, 1, 2, 3, 4]))
         names_out = rng.sample(EVOUT, rng.choice([0, 1, 2, 3]))
         enum_name = rng.choice(['Result', 'Status'])
-        types = [['enum', [enum_name], rng.sample(['Ok', 'Fail', 'Error', 'Busy'], rng.randint(1, 3))]]
+        types = [['enum', [enum_name], rng.sample(['NotOk', 'Ok', 'Fail', 'Error', 'Busy', 'Ok2'], rng.randint(1, 4))]]   # field names containing each other on purpose
         if rng.random() < 0.4:
             types.append(['subint', ['Small'], 0, 7])
         for en in names_in:
